@@ -165,6 +165,7 @@ fn _param_list_openqasm(p: &mut Parser<'_>, flavor: DefFlavor) {
         }
 
         // Dispatch to the appropriate item parser.
+        let pos_before_item = p.position();
         let found_param = match flavor {
             ExpressionList | CaseValues => {
                 m.abandon(p);
@@ -192,6 +193,11 @@ fn _param_list_openqasm(p: &mut Parser<'_>, flavor: DefFlavor) {
             }
         };
         if !found_param {
+            break;
+        }
+        // An item parser that reported success without consuming any token made no
+        // progress (its errors are already logged). Stop rather than loop forever.
+        if p.position() == pos_before_item {
             break;
         }
         num_params += 1;
